@@ -15,6 +15,7 @@ ALLOWED_EXTRA = {'memcpy', 'memset', 'memmove', 'memcmp', '_GLOBAL_OFFSET_TABLE_
                  '__aeabi_uldivmod', '__aeabi_ldivmod', '__aeabi_lmul', '__aeabi_llsl', '__aeabi_llsr',
                  '__aeabi_memcpy', '__aeabi_memcpy4', '__aeabi_memcpy8', '__aeabi_memset', '__aeabi_memset4', '__aeabi_memset8',
                  '__aeabi_memclr', '__aeabi_memclr4', '__aeabi_memclr8', '__aeabi_memmove', '__aeabi_memmove4', '__aeabi_memmove8',
+                 '__aeabi_uidiv', '__aeabi_uidivmod', '__aeabi_idiv', '__aeabi_idivmod', '__aeabi_lasr', '__aeabi_ulcmp', '__aeabi_lcmp', '__udivsi3', '__umodsi3', '__divsi3', '__modsi3', '__mulsi3', '__udivmodsi4', '__divmodsi4', '__divmoddi4', '__clzsi2', '__clzdi2', '__ctzsi2', '__ctzdi2', '__bswapsi2', '__bswapdi2', '__popcountsi2', '__popcountdi2', '__ucmpdi2', '__cmpdi2',
                  '_aulldiv', '_aullrem', '_alldiv', '_allrem', '_allmul', '_aullshr', '_allshl', '_allshr', '__chkstk', '_chkstk'}
 FREESTANDING = {'stddef.h', 'stdint.h', 'stdbool.h', 'stdarg.h', 'limits.h', 'float.h', 'iso646.h', 'stdalign.h', 'stdnoreturn.h'}
 def extra_checks(tier, seed):
